@@ -212,7 +212,7 @@ structure Coll where
   times : Times
   /-- `_validated_a_period`: whatever `from_dict` found under the key (a boolean in normal use) -/
   validated : PyVal
-  /-- immutable twin (`values` is a tuple) -/
+  /-- immutable twin (`values` is a tuple on the object; `to_dict` exports a list copy for both twins) -/
   imm : Bool
 deriving Repr, Inhabited
 
@@ -225,7 +225,7 @@ def Times.enc : Times → List (Key × PyVal)
 
 def Coll.enc (c : Coll) : PyVal :=
   .dict ([kv "header" c.header.enc,
-          kv "values" (if c.imm then .tuple c.values else .list c.values)] ++ c.times.enc ++
+          kv "values" (.list c.values)] ++ c.times.enc ++
     (match c.kind with
       | .hourlyCont => []
       | _ => [kv "validated_a_period" c.validated]) ++
